@@ -488,6 +488,33 @@ pub fn c01_plutus_variants<S: Src>(_s: &mut S) {
     assert!(failures.is_empty(), "{} Plutus data samples do not survive encode / decode; first: {}", failures.len(), failures[0]);
 }
 
+// ---------------------------------------------------------------- C18: a key needed by several parts of the transaction signs (and is counted) once
+pub fn c18_shared_keys<S: Src>(_s: &mut S) {
+    let mut failures: Vec<String> = Vec::new();
+    // variant bits: 1 = withdrawal by the payment key, 2 = stake deregistration by it, 4 = required signer, 8 = collateral from the same key
+    for variant in 1..16u8 {
+        let mut tb = TransactionBuilder::new(&config(true));
+        let mut ib = TxInputsBuilder::new();
+        ib.add_key_input(&kh(1), &TransactionInput::new(&TransactionHash::from([3u8; 32]), 0), &Value::new(&bn(500_000_000)));
+        tb.set_inputs(&ib);
+        if variant & 1 != 0 { let mut wb = WithdrawalsBuilder::new(); if wb.add(&RewardAddress::new(0, &kc(1)), &bn(1_000_000)).is_err() { continue; } tb.set_withdrawals_builder(&wb); }
+        if variant & 2 != 0 { let mut cb = CertificatesBuilder::new(); if cb.add(&Certificate::new_stake_deregistration(&StakeDeregistration::new(&kc(1)))).is_err() { continue; } tb.set_certs_builder(&cb); }
+        if variant & 4 != 0 { tb.add_required_signer(&kh(1)); }
+        if variant & 8 != 0 { let mut col = TxInputsBuilder::new(); col.add_key_input(&kh(1), &TransactionInput::new(&TransactionHash::from([4u8; 32]), 0), &Value::new(&bn(5_000_000))); tb.set_collateral(&col); }
+        tb.set_fee(&bn(2_000_000));
+        let predicted = match tb.full_size() { Ok(p) => p, Err(_) => continue };
+        let tx = match tb.build_tx_unsafe() { Ok(t) => t, Err(_) => continue };
+        let mut ws = tx.witness_set();
+        let mut vk = Vkeywitnesses::new();
+        vk.add(&Vkeywitness::new(&Vkey::new(&pubkey(1)), &sig()));          // the one key that has to sign
+        ws.set_vkeys(&vk);
+        let signed = Transaction::new(&tx.body(), &ws, tx.auxiliary_data()).to_bytes().len();
+        if predicted < signed { failures.push(format!("variant {}: predicted size {} is below the size {} of the transaction signed by its single key", variant, predicted, signed)); }
+        if predicted >= signed + 100 { failures.push(format!("variant {}: predicted size {} exceeds the signed size {} by a whole key witness: a key needed twice is counted twice", variant, predicted, signed)); }
+    }
+    assert!(failures.is_empty(), "{} shared-key scenarios mispredict the signed size; first: {}", failures.len(), failures[0]);
+}
+
 // ---------------------------------------------------------------- C09 first clause: auxiliary-data hash
 fn blake2b256_ref(data: &[u8]) -> [u8; 32] {
     use cryptoxide::hashing::blake2b::Blake2b;
